@@ -109,7 +109,9 @@ pub fn run(tabs: &Tables, members: &[Member], prog_file: &str, seed: u64, k_tol:
     for line in text.lines() {
         let Some(prog) = crate::replay::parse_tagged(line, "PROG") else { continue };
         let nv = prog["inputs"].as_u64().unwrap_or(1) as usize;
-        let nodes: Vec<Ev> = prog["nodes"].as_array().ok_or("nodes")?.iter().map(Ev::from_json).collect::<Result<_, _>>()?;
+        // scalar constants are f32 numbers, like the evaluation points: every member (f32 or f64) computes the same function
+        let nodes: Vec<Ev> = prog["nodes"].as_array().ok_or("nodes")?.iter()
+            .map(|v| Ev::from_json(v).map(|mut e| { e.s = (e.s as f32) as f64; e })).collect::<Result<_, _>>()?;
         // the final node must be a dual value depending on the inputs; skip programs whose last node is a constant
         programs += 1;
         let ms: Vec<&Member> = members.iter().filter(|m| m.nv == nv).collect();
